@@ -127,7 +127,8 @@ type Conc struct {
 	sizes   []int
 	atoms   map[string][]byte
 	shift   uint64
-	keyMode int // 0 plain; 1 rich (UTF-8, characters needing URL escaping); 2 rich2 (base64-hostile bytes)
+	images  map[byte]string // key mode 3
+	keyMode int             // 0 plain; 1 rich (UTF-8, characters needing URL escaping); 2 rich2 (base64-hostile bytes)
 	small   bool
 }
 
@@ -226,9 +227,39 @@ var richMap2 = map[byte]string{
 	'd': "dd~", 'x': "xx?", 'y': "yy>", 'z': "zz~",
 }
 
+// key mode 3 ("rich3"): every abstract byte is followed by one or two characters drawn, per tour, from a pool of
+// unusual but legal key characters (punctuation that URLs, XML, file systems or base64 treat specially, DEL, a C1
+// control, 2-, 3- and 4-byte UTF-8, a trailing blank).  The image starts with the abstract byte, so byte order,
+// prefixes and the delimiter structure are kept.
+var richPool = []string{"+", ";", "=", "&", " ", "%", "#", "?", "*", ":", "|", "~", "^", "`", "{", "}", "[", "]", "@", "$", "!", ",",
+	"'", "\"", "<", ">", "\\", "\x7f", "é", "ł", "世", "😀", "\u0080", "\ufffd", "\u2028", "𐍈", "\U0010FFFF"}
+
+func (c *Conc) image(b byte) string {
+	if b == '/' {
+		return "/"
+	}
+	h := hash64("img", fmt.Sprint(c.seed), fmt.Sprint(c.salt), string([]byte{b}))
+	s := string([]byte{b}) + richPool[int(h%uint64(len(richPool)))]
+	if (h>>20)%2 == 0 {
+		s += richPool[int((h>>8)%uint64(len(richPool)))]
+	}
+	return s
+}
+
 func (c *Conc) keyMap() map[byte]string {
-	if c.keyMode == 2 {
+	switch c.keyMode {
+	case 2:
 		return richMap2
+	case 3:
+		if c.images == nil {
+			c.images = map[byte]string{}
+			for b := 0; b < 256; b++ {
+				if b != '^' && b != '!' {
+					c.images[byte(b)] = c.image(byte(b))
+				}
+			}
+		}
+		return c.images
 	}
 	return richMap
 }
@@ -280,6 +311,25 @@ func (c *Conc) Key(k string) string {
 		}
 	}
 	return sb.String()
+}
+
+// KeyPrefix concretizes a listing prefix.  In key mode 3 the image of the prefix's last byte is cut somewhere after
+// its first byte (possibly inside a multi-byte character): every key that has that abstract byte there carries the
+// whole image, so the cut prefix selects exactly the same keys -- and the byte that follows the prefix in those
+// keys is then an unusual one (a 4-byte character's lead byte, a continuation byte, ...).
+func (c *Conc) KeyPrefix(p string) string {
+	full := c.Key(p)
+	if c.keyMode != 3 || p == "" || strings.HasPrefix(p, "^") || strings.HasSuffix(p, "!") {
+		return full
+	}
+	last := p[len(p)-1]
+	img := c.keyMap()[last]
+	if last == '/' || len(img) < 2 || !strings.HasSuffix(full, img) {
+		return full
+	}
+	h := hash64("cut", fmt.Sprint(c.seed), fmt.Sprint(c.salt), p)
+	cut := 1 + int(h%uint64(len(img))) // 1..len(img): keep at least the first byte
+	return full[:len(full)-len(img)+cut]
 }
 
 // Unkey is the inverse of Key on keys produced by Key.
@@ -336,6 +386,17 @@ func metaHeader(name string) string {
 func (c *Conc) MetaValue(name, v string) string {
 	if v == "" {
 		return "" // a header sent with an empty value
+	}
+	// values that look like an encoding marker of some storage layer: they are data and come back as sent
+	switch v {
+	case "B64":
+		return "base64:aGVsbG8gd29ybGQ="
+	case "PCT":
+		return "%41%2Fb+c%"
+	case "MIME":
+		return "=?UTF-8?B?aGk=?="
+	case "JSON":
+		return "{\"a\":[1,\"\\u00e9\"]}"
 	}
 	switch name {
 	case "ct":
